@@ -16,6 +16,13 @@ def find_lt0(p, dom, x, val):
         if sg == want and isinstance(y, tuple) and numericish(y) and dom.eq(y, x): return True
     return False
 
+def fee_like(p, dom):
+    """amounts the path tests against zero that involve a rounding: shown when the expected fee formula is not found"""
+    out = []
+    for y, sg in p.signs():
+        if isinstance(y, tuple) and 'round' in repr(y): out.append('%s (%s)' % (dom.show(y)[:220], sg))
+    return '; amounts involving a rounding that the path does test: [%s]' % ' | '.join(out[:3]) if out else '; the path tests no rounded amount against zero'
+
 def settle_spec(p, dom, bs):
     """expected legs and bookkeeping deltas for this path, read off its guard facts; returns dict or (None, reason)"""
     G = MUL(PE, SIZE); O = MUL(bs.P, SIZE)
@@ -40,7 +47,7 @@ def settle_spec(p, dom, bs):
                 if sg == 'pos': pos = True
                 else: zero = True
         if pos: ask_fee = A
-        elif not zero: return None, 'ask fee configured but no zero / non-zero branch on round0(rate * gross) found'
+        elif not zero: return None, 'ask fee configured but no zero / non-zero branch on round0(ask rate x executed gross)' + fee_like(p, dom)
     elif afi != 'None': return None, 'ask_fee_info presence not established'
     net = SUB(G, ask_fee) if ask_fee is not None else G
     legs.append(('proceeds', bs.qdenom, net, seller))
@@ -51,7 +58,7 @@ def settle_spec(p, dom, bs):
     if has_fee:
         if find_lt0(p, dom, b1, True): b1_paid = True
         elif find_lt0(p, dom, b1, False): dom.add_equality(b1, I(0))
-        else: return None, 'fee-bearing bid: no branch on "fee for this fill > 0" found'
+        else: return None, 'fee-bearing bid: no branch on "fee for this fill > 0" with the fee = remaining fee - round0((remaining quote - gross)/quote x fee)' + fee_like(p, dom)
         if b1_paid:
             if p.variant_of(BFI) != 'Some': return None, 'bid fee paid but bid_fee_info presence not established'
             legs.append(('bid-fee', bs.fdenom, b1, F(SOMEV(BFI), 'account')))
@@ -68,7 +75,7 @@ def settle_spec(p, dom, bs):
             b2_pos = find_lt0(p, dom, b2, True)
             if not b2_pos:
                 if find_lt0(p, dom, b2, False): dom.add_equality(b2, I(0))
-                else: return None, 'improved fill of a fee-bearing bid: no branch on "fee at the bid price > 0"'
+                else: return None, 'improved fill of a fee-bearing bid: no branch on "fee at the bid price > 0" with the pro-rata formula' + fee_like(p, dom)
             r = SUB(b2, b1) if b1_paid else b2
             if b2_pos:
                 if b1_paid:
